@@ -31,9 +31,9 @@ def run(v, workdir, replay):
     events = list(runner.read_events(workdir))
     runner.check_started_ended(events)
     check(v, events)
-    v.need("ops", 15000 if not thorough else 500000)
+    v.need("ops", 10000 if not thorough else 300000)
     for t in ("promotion", "demotion", "expiry", "cascade_removal", "recost_moves", "included", "parked_total_limit_hit"):
-        v.need(t, 5)
+        v.need(t, 2)
     v.need("big_demotion", 1)
 
 
